@@ -161,6 +161,11 @@ func execC16(c *child.Ctx, k loggerCase, cj []byte) {
 				len(in), len(res.Stdout), firstDiff(res.Stdout, in), clipText(res.Stderr)), cj)
 			return
 		}
+		if res.AcceptedAMinuteBeforeTheEnd > len(res.Stdout) {
+			c.Violate("pass-through-withheld", fmt.Sprintf("rtcmlogger was still running (not blocked) when the run was ended; its standard input had accepted %d bytes more than a minute earlier and only %d bytes had been passed through (input %d bytes, silence of %d ms after %d chunks, non-blocking stdin %v)\n%s",
+				res.AcceptedAMinuteBeforeTheEnd, len(res.Stdout), len(in), k.SilenceMs, k.SilenceAfterChunks, k.StdinNonblock, clipText(res.Stderr)), cj)
+			return
+		}
 		c.Inconclusive("rtcmlogger did not exit within 90 s")
 		return
 	case res.ExitCode != 0:
